@@ -14,7 +14,7 @@ PROPS_FILE = "Props/C20.v"
 ANCHORS = [("lib/debian/debtags.py",
             ["parse_tags", "read_tag_database", "read_tag_database_reversed",
              "read_tag_database_both_ways", "reverse", "DB"])]
-BUDGET = {"quick": 2200, "thorough": 24000}
+BUDGET = {"quick": 2200, "thorough": 14000}
 SHARD = 120
 SHARD_IMPORTS = "From Coq Require Import Uint63."
 RULE = ("histories over several live DB objects: DB(), read() of a tag file rendered from records "
